@@ -121,6 +121,12 @@ def build(run, cfg, future, B):
         sub = B.Strategy('sub', [A.RunDaily(), A.SelectAll(), A.SelectMomentum(1, lookback=d2, lag=lag), A.WeighEqually(), A.Rebalance()], ['a', 'b'])
         children = [sub, 'c']
         algos = [A.RunDaily(), A.SelectAll(), A.WeighEqually(), A.Rebalance()]
+    elif st == 'nested_explicit':
+        # explicit Security children, one of them not priced yet on the first dates (late listing): pushing capital through the sub-strategy
+        # must not touch it (zero allocation at a missing price is a no-op)
+        sub = B.Strategy('sub', [A.RunDaily(), A.SelectAll(), A.WeighEqually(), A.Rebalance()], [C.Security('a'), C.Security('c')])
+        children = [sub, C.Security('b')]
+        algos = [A.RunDaily(), A.WeighSpecified(sub=0.625, b=0.25), A.Rebalance()]
     elif st == 'fixedincome':
         add['coupons'] = mkframe('cpn', ['a'], lambda i, c: 0.25 + 0.125 * (i % 2), -5, 5)
         add['notl'] = pd.Series([1000.0 + 100 * i for i in range(len(dts))], index=dts)
@@ -311,7 +317,7 @@ HARNESSES = {'lookahead': h_lookahead}
 WITNESS_CAP = {'quick': 80, 'thorough': 300}
 
 STACKS = ['equal', 'momentum', 'hasdata_invvol', 'erc_meanvar', 'setstat_dense', 'setstat_sparse', 'weightarget_where', 'targetvol', 'weekly_monthly',
-          'risk_hedge', 'nested', 'fixedincome']
+          'risk_hedge', 'nested', 'nested_explicit', 'fixedincome']
 
 
 def plan(tier):
